@@ -41,7 +41,9 @@ TABLE = {
             ('OpyVerif.Proofs.C18real', 'Opy', r'index_draw_range'),
             ('OpyVerif.Proofs.TaskRun', 'Opy', r'^(goodBody_pattern|good_pattern|exec_body|exec_pre|task_logs|task_sweep_calls)$'),
             ('OpyVerif.Proofs.TaskRunCodeSkel', 'Opy', r'code_task_logs|code_task_sweep_calls|code_taskSkeletons_good'),
-            ('OpyVerif.Proofs.TaskRunCode', 'Opy', r'code_taskSweeps_plain')],
+            ('OpyVerif.Proofs.TaskRunCode', 'Opy', r'code_taskSweeps_plain'),
+            ('OpyVerif.Proofs.TaskAnyTrial', 'Opy', r'^(anyUpdate_calls|code_anyUpdate_calls)$'),
+            ('OpyVerif.Proofs.TaskTrialCode', 'Opy', r'code_sites_one_eval')],
     'C04': [('OpyVerif.Proofs.C04', 'Opy', r'dump|lookup_appendAttr'),
             ('OpyVerif.Generated.Ops', 'Opy.Gen', r'dumpSkips_spec|dump_guard_known|parseRules_spec'),
             ('OpyVerif.Proofs.C19', 'Opy', r'dump_series'),
